@@ -62,12 +62,12 @@ theorem normC_settle {h : Hashing} {i : SyncIn} (hn : NormC h i) : NormC h (sett
   have hkp : KeyPerm (settle i).pods ((i.pods.filter (fun c => !c.pod.terminating)).map settleOne) := by
     rw [settle_pods]; exact keyPerm_reindex_sort _
   refine ⟨⟨hn.spec.paused, hn.spec.sel, hn.spec.del, hn.spec.rep, hn.spec.r0, hn.spec.strat, hn.spec.lim⟩,
-    ?_, ?_, hn.rev, hn.noOrphanRev, ?_, hn.smallR, hn.smallB, rfl⟩
+    ?_, ?_, hn.rev, hn.noOrphanRev, ?_, hn.smallR, rfl⟩
   · intro x hx
     obtain ⟨y, hy, hk⟩ := hkp.mem hx
     rw [List.mem_map] at hy
     obtain ⟨c0, hc0, rfl⟩ := hy
-    obtain ⟨a1, a2, a3, a4, a5, a6, a7, a8⟩ := hn.pods c0 (List.mem_of_mem_filter hc0)
+    obtain ⟨a1, a2, a3, a4, a5, a7, a8⟩ := hn.pods c0 (List.mem_of_mem_filter hc0)
     have e1 : (settleOne c0).owner = x.owner := key_transfer (·.owner) (fun _ => rfl) hk
     have e2 : (settleOne c0).member = x.member := key_transfer (·.member) (fun _ => rfl) hk
     have e3 : (settleOne c0).selMatch = x.selMatch := key_transfer (·.selMatch) (fun _ => rfl) hk
@@ -76,7 +76,7 @@ theorem normC_settle {h : Hashing} {i : SyncIn} (hn : NormC h i) : NormC h (sett
     have e7 : (settleOne c0).pod.stOk = x.pod.stOk := key_transfer (·.pod.stOk) (fun _ => rfl) hk
     have e8 : (settleOne c0).pod.created = x.pod.created := key_transfer (·.pod.created) (fun _ => rfl) hk
     rw [← e1, ← e2, ← e3, ← e4, ← e5, ← e7, ← e8, settleOne_owner, settleOne_member, settleOne_sel, settleOne_name, settleOne_ord]
-    refine ⟨a1, a2, a3, a4, a5, a6, ?_, ?_⟩
+    refine ⟨a1, a2, a3, a4, a5, ?_, ?_⟩
     · unfold settleOne; split_ifs <;> exact a7
     · unfold settleOne; split_ifs
       · exact a8
@@ -108,7 +108,7 @@ theorem settle_room {h : Hashing} {i : SyncIn} (D : List Int) :
 theorem nsc_settle {h : Hashing} {i : SyncIn} (hn : NormC h i)
     (hroom : (i.pods.filter (fun c => !(desired (replicasOf i.view) i.view.slots).contains c.pod.ord)).length +
       (replicasOf i.view).toNat ≤ freshId) : NSC h (settle i) := by
-  refine ⟨normC_settle hn, settle_idPos i, settle_settled i, ?_⟩
+  refine ⟨normC_settle hn, idOk_of_idPos (settle_idPos i) (normC_settle hn).small, settle_settled i, ?_⟩
   have := settle_room (h := h) (i := i) (desired (replicasOf i.view) i.view.slots)
   show ((settle i).pods.filter (fun c => !(desired (replicasOf i.view) i.view.slots).contains c.pod.ord)).length +
     (replicasOf i.view).toNat ≤ freshId
